@@ -1043,8 +1043,10 @@ def tree_state(root, seen=None):
     return out
 
 
-def deep_state(site):
-    """name -> canonical contents of the long-lived state a request must leave alone."""
+def deep_state(site, full=True):
+    """name -> canonical contents of the long-lived state a request must leave alone.  `full=False`: only what hangs
+    on the mounted trees and the applications, plus the global config (the classes / modules / default toolbox
+    part is the same walk for every site and is taken less often)."""
     import sys as _sys
     seen = set()
     out = {}
@@ -1068,6 +1070,9 @@ def deep_state(site):
             else:
                 av[k] = _deep(x, seen, 1)
         out['app%d object' % i] = av
+    out['cherrypy.config'] = _deep(dict(cherrypy.config), seen, 1)
+    if not full:
+        return out
     for c in DEEP_CLASSES:
         out['class %s.%s' % (c.__module__, c.__name__)] = _class_state(c, seen)
     for mn in DEEP_MODULES:
@@ -1085,5 +1090,4 @@ def deep_state(site):
             else:
                 g[k] = type(x).__name__
         out['module ' + mn] = g
-    out['cherrypy.config'] = _deep(dict(cherrypy.config), seen, 1)
     return out
